@@ -5,7 +5,7 @@ APPLIER = Comp('applier', n_quick=3200, n_thorough=100000, oracle=applier.applie
                stats=applier.applier_stats, chunk_min=100, timeout=900)
 
 from oracledefs import repl
-REPL_ONCE = Comp('repl', n_quick=23, n_thorough=96, oracle=repl.repl_once_oracle, nontrivial=repl.repl_once_nontrivial, stats=repl.repl_stats,
+REPL_ONCE = Comp('repl', n_quick=24, n_thorough=96, oracle=repl.repl_once_oracle, nontrivial=repl.repl_once_nontrivial, stats=repl.repl_stats,
                  differential=False, chunk_min=10 ** 6, timeout=1500, shrink=False)
 
 reg(Prop('C13', 'Kevo.Props.C13',
